@@ -863,7 +863,8 @@ pub fn run_estimate(focus: &'static str, seed: u64, index: u64) -> CaseOut {
             while !stop.load(Ordering::Relaxed) {
                 n += 1;
                 let key = 1000 + n % 50;
-                if let Ok(ack) = cache.put_with_weight(key, token(key, 9, n), 10) { let _ = rt::busy_await(ack.handle(), Duration::from_secs(10)); }
+                // only every eighth put is awaited (the queue has eight slots): the worker is kept busy consulting the sketch back to back
+                if let Ok(ack) = cache.put_with_weight(key, token(key, 9, n), 10) { if n % 8 == 0 { let _ = rt::busy_await(ack.handle(), Duration::from_secs(10)); } }
             }
             n
         }))
@@ -892,11 +893,23 @@ pub fn run_estimate(focus: &'static str, seed: u64, index: u64) -> CaseOut {
     counts.add("rejected_puts_consulting_the_sketch_during_the_reads", storm_puts);
     match sut.quiesce() {
         Err(waited) => match waited {
+            // every thread idle while records counted as handed over (AccessAdded) have still not been applied to the sketch: they never will be
+            Waited::Deadlock(d) if d.starts_with("access batches to be applied") => fail(&mut findings, &["C15", "C14"], "C15/handed-over-records-never-reach-the-sketch/estimate".into(),
+                format!("AccessAdded {} but the sketch received {} records, with every thread idle (hits {}, dropped {}): {}", sut.stat(StatsType::AccessAdded), sut.applied(), sut.stat(StatsType::CacheHits), sut.stat(StatsType::AccessDropped), d), case.clone()),
             Waited::Deadlock(d) => fail(&mut findings, &["C18", "C14"], "C18/deadlock/estimate".into(), d, case.clone()),
             other => findings.push(Finding { props: vec!["C14"], signature: "inconclusive/estimate".into(), detail: waited_name(&other), witness: J::Null, inconclusive: true }),
         },
         Ok(()) => {
-            let dropped = sut.stat(StatsType::AccessDropped);
+            // C15 with the command worker consulting the sketch (read lock in estimate()) while the consumer applies batches to it: every hit is
+            // still buffered, handed over or counted as dropped - exactly once
+            let (hits, added, dropped) = (sut.stat(StatsType::CacheHits), sut.stat(StatsType::AccessAdded), sut.stat(StatsType::AccessDropped));
+            let buffered = sut.cache.verif_buffered_hits() as u64;
+            counts.inc("quiescent_identity_checks_after_the_worker_consulted_the_sketch_during_reads");
+            if hits != added + dropped + buffered {
+                fail(&mut findings, &["C15"], "C15/hits-not-accounted/estimate".into(), format!("hits {} != added {} + dropped {} + buffered {} (readers while a writer's puts consult the sketch)", hits, added, dropped, buffered), case.clone());
+            } else if sut.background_exits().is_empty() && sut.applied() != added {
+                fail(&mut findings, &["C15"], "C15/applied-differs-from-added/estimate".into(), format!("the sketch received {} access records but AccessAdded is {}", sut.applied(), added), case.clone());
+            }
             if dropped > 0 { counts.inc("cases_skipped_because_accesses_were_dropped"); }
             else {
                 let resident: BTreeSet<u64> = sut.snapshot().stored.iter().map(|e| e.0).collect();
